@@ -170,7 +170,8 @@ impl Model for KStruct {
     }
 }
 
-/// a derived enum usable as a key: `derive(Ord)` orders by variant ordinal, then fields
+/// a derived enum usable as a key: `derive(Ord)` orders by the variant's discriminant (here = ordinal), then fields;
+/// `KDesc` below has discriminants that are not ascending
 #[derive(BorshSerialize, BorshDeserialize, BorshSchema, Clone, Debug, PartialEq, Eq, PartialOrd, Ord, Hash)]
 pub enum KEnum {
     P,
@@ -293,5 +294,74 @@ impl Model for U0 {
     }
     fn to_val(&self) -> Val {
         Val::V(0, Box::new(l(vec![])))
+    }
+}
+
+/// a key enum whose discriminants are NOT ascending in declaration order, written to the wire as they are
+/// (`use_discriminant = true`): `derive(Ord)` compares the DISCRIMINANT VALUES, so B < C < A - a `BTreeSet<KDesc>`
+/// iterates, is written and is strictly decoded in that order (tags 1, 3, 5), not in declaration order
+#[derive(BorshSerialize, BorshDeserialize, BorshSchema, Clone, Copy, Debug, PartialEq, Eq, PartialOrd, Ord, Hash)]
+#[borsh(use_discriminant = true)]
+pub enum KDesc {
+    A = 5,
+    B = 1,
+    C = 3,
+}
+impl Model for KDesc {
+    fn describe() -> String {
+        "(sum (enum KDesc (A B C) (5 1 3)) (prod (variant () ())) (prod (variant () ())) (prod (variant () ())))".into()
+    }
+    fn from_val(v: &Val) -> Option<Self> {
+        match v {
+            Val::V(i, p) if list(p, 0).is_some() => match i {
+                0 => Some(KDesc::A),
+                1 => Some(KDesc::B),
+                2 => Some(KDesc::C),
+                _ => None,
+            },
+            _ => None,
+        }
+    }
+    fn to_val(&self) -> Val {
+        let i = match self {
+            KDesc::A => 0,
+            KDesc::B => 1,
+            KDesc::C => 2,
+        };
+        Val::V(i, Box::new(l(vec![])))
+    }
+}
+
+/// explicit ASCENDING discriminants that are NOT written (`use_discriminant = false`: tags are the ordinals
+/// 0, 1, 2): discriminant order = ordinal order = tag order, with payloads compared after the variant
+#[derive(BorshSerialize, BorshDeserialize, BorshSchema, Clone, Copy, Debug, PartialEq, Eq, PartialOrd, Ord, Hash)]
+#[borsh(use_discriminant = false)]
+pub enum KAsc {
+    A = 2,
+    B = 7,
+    C = 9,
+}
+impl Model for KAsc {
+    fn describe() -> String {
+        "(sum (enum KAsc (A B C) (0 1 2)) (prod (variant () ())) (prod (variant () ())) (prod (variant () ())))".into()
+    }
+    fn from_val(v: &Val) -> Option<Self> {
+        match v {
+            Val::V(i, p) if list(p, 0).is_some() => match i {
+                0 => Some(KAsc::A),
+                1 => Some(KAsc::B),
+                2 => Some(KAsc::C),
+                _ => None,
+            },
+            _ => None,
+        }
+    }
+    fn to_val(&self) -> Val {
+        let i = match self {
+            KAsc::A => 0,
+            KAsc::B => 1,
+            KAsc::C => 2,
+        };
+        Val::V(i, Box::new(l(vec![])))
     }
 }
